@@ -104,3 +104,43 @@ def pt_cases(seed, arity, ncases, length, universe, nh, first_id=1):
             ops.append(op)
         cases.append({"id": first_id + c, "nh": nh, "n": arity, "ops": ops})
     return cases
+
+
+def uf_cases(seed, ncases, length, maxn, first_id=1):
+    """Random Unification sequences inside the preconditions (union only of current representatives;
+    the generator tracks the partition itself)."""
+    rnd = random.Random(seed * 17 + maxn)
+    cases = []
+    for c in range(ncases):
+        ops = []
+        rt, crt = [], None
+
+        def rep_union(r, l, x):
+            return [x if v == l else v for v in r]
+        for _ in range(length):
+            r = rnd.random()
+            if not rt or (r < 0.12 and len(rt) < maxn):
+                n = min(maxn, len(rt) + rnd.randint(1, 3))
+                ops.append({"op": "grow", "a": n, "b": 0})
+                rt = rt + list(range(len(rt), n))
+            elif r < 0.45:
+                ops.append({"op": "root", "a": rnd.randrange(len(rt)), "b": 0})
+            elif r < 0.75:
+                roots = sorted(set(rt))
+                a, b = rnd.choice(roots), rnd.choice(roots)
+                ops.append({"op": "union", "a": a, "b": b})
+                rt = rep_union(rt, a, b)
+            elif r < 0.8:
+                ops.append({"op": "clone", "a": 0, "b": 0})
+                crt = list(rt)
+            elif crt and r < 0.9:
+                ops.append({"op": "croot", "a": rnd.randrange(len(crt)), "b": 0})
+            elif crt:
+                roots = sorted(set(crt))
+                a, b = rnd.choice(roots), rnd.choice(roots)
+                ops.append({"op": "cunion", "a": a, "b": b})
+                crt = rep_union(crt, a, b)
+            else:
+                ops.append({"op": "root", "a": rnd.randrange(len(rt)), "b": 0})
+        cases.append({"id": first_id + c, "ops": ops})
+    return cases
